@@ -99,4 +99,4 @@ def rule_verify(ctx, prop):
 
 def run(ctx):
     return [r_cli.rule_fs(ctx, "C14"), r_cli.rule_workers(ctx, "C14"), r_cli.rule_exit(ctx, "C14"), r_cli.rule_err_status(ctx, "C14"), r_cli.rule_loop_exit(ctx, "C14"),
-            rule_verify(ctx, "C14"), r_cli.rule_verify_wiring(ctx, "C14"), r_cli.rule_panic_mode(ctx, "C14"), r_cli.rule_job_only_in_pool(ctx, "C14"), p_c07.rule_parse(ctx, "C14"), r_cli.rule_exact_read(ctx, "C14")]
+            rule_verify(ctx, "C14"), r_cli.rule_verify_wiring(ctx, "C14"), r_cli.rule_panic_mode(ctx, "C14"), r_cli.rule_job_only_in_pool(ctx, "C14"), p_c07.rule_parse(ctx, "C14"), r_cli.rule_exact_read(ctx, "C14"), p_c07.rule_verify_input(ctx, "C14")]
